@@ -860,6 +860,13 @@ class Constructors(Op):
             out.append(dict(base, dshape=[mr + 1, mc], bad="element count"))
             out.append(dict(base, dshape=[mr, mc + 1], bad="element count"))
             out.append(dict(base, tshape=s + [2], bad="element count"))
+            # a matrix with as many cells but another shape than (cells of the row modes, cells of the column modes)
+            for ds in {(mc, mr), (1, n), (n, 1)} | {(a, n // a) for a in range(2, n) if n % a == 0}:
+                if list(ds) != [mr, mc]:
+                    out.append(dict(base, dshape=list(ds), bad="matrix shape differs from the split"))
+            # 1-d data: the constructor shapes it itself, only the size has to fit
+            out.append(dict(base, dshape=[1, n], vec=True, bad=None))
+            out.append(dict(base, dshape=[1, n + 1], vec=True, bad="element count"))
             for what, d2 in bad_mode_lists(N, rd or cd):
                 if rd:
                     out.append(dict(base, rdims=d2, bad="rdims " + what))
@@ -921,7 +928,7 @@ class Constructors(Op):
                 return (lambda: (S + parts[1]) + parts[2]), S
             return (lambda: ttb.sumtensor(parts)), None
         if k == "tenmat":
-            data = mk_mat(r, *c["dshape"])
+            data = mk_vec(r, c["dshape"][1]) if c.get("vec") else mk_mat(r, *c["dshape"])
             return (lambda: ttb.tenmat(data, arr(c["rdims"]), arr(c["cdims"]), tuple(c["tshape"]))), None
         if k == "sptenmat":
             w = len(c["subs"][0])
